@@ -82,6 +82,9 @@ type runner struct {
 	ensureTerm bool
 	termWaits  int
 	dwarf      bool // binaries carry wasmb.DegenerateDWARF
+	// implicit: these instances are created with Runtime.InstantiateWithConfig from the binary (their
+	// compilation is closed with them) while other instances of the same binary stay open
+	implicit map[int]bool
 	// multi: the factory is combined with a second one through MultiFunctionListenerFactory
 	multi bool
 	// perInstCompile: every instance is a separate CompileModule call with its own factory, all
@@ -460,7 +463,13 @@ func (r *runner) setup(plans []*plan.Plan, names []string, imports []int) {
 			}
 			compiled[p] = cm
 		}
-		mod, err := r.rt.InstantiateModule(ictx, cm, wazero.NewModuleConfig().WithName(names[i]))
+		var mod api.Module
+		if r.implicit[i] {
+			// compiled implicitly: the compilation is closed together with the instance
+			mod, err = r.rt.InstantiateWithConfig(ictx, r.enc(p), wazero.NewModuleConfig().WithName(names[i]))
+		} else {
+			mod, err = r.rt.InstantiateModule(ictx, cm, wazero.NewModuleConfig().WithName(names[i]))
+		}
 		if err != nil {
 			panic(fmt.Sprintf("harness: plan does not instantiate: %v", err))
 		}
